@@ -3,6 +3,7 @@ package gen
 import (
 	"fmt"
 	"strconv"
+	"strings"
 
 	"github.com/remieven/ysgo/verifharness/core"
 	"github.com/remieven/ysgo/verifharness/hast"
@@ -229,6 +230,10 @@ func (g *flowGen) parts(prefix string) []hast.Part {
 	}
 	if r.Chance(1, 5) {
 		parts = append(parts, hast.Lit(r.Pick(" end", " fin", " 終")))
+	}
+	if r.Chance(1, 60) {
+		// a physical line of 2-10 KiB (longer than the usual 4 KiB I/O buffer)
+		parts = append(parts, hast.Lit(strings.Repeat(" lorem ipsum", r.Range(200, 900))))
 	}
 	if r.Chance(1, 12) {
 		// the text ends with a colon (a speaker prefix with nothing after it), possibly followed by an
